@@ -25,7 +25,7 @@ S == [authAlg |-> "sha1", integAlg |-> "sha1", authNum |-> 1, integNum |-> 1, co
 \* record: [id, type (1 full, 2 compact, 17 FRU locator, 192 OEM), body (bytes)], r (FSR abstract record when full)
 IdStr(k, n) == [enc |-> (k % 4), vals |-> [i \in 1..n |-> CASE (k % 4) = 1 -> (i + k) % 16 [] (k % 4) = 2 -> (i * 5 + k) % 64 [] OTHER -> 33 + ((i * 7 + k) % 90)]]
 \* (the 5-bit length counts characters: 16 bytes hold up to 31 BCD plus or 21 packed 6-bit characters)
-FullRec(id, k) == LET n == (IF k % 5 = 0 THEN 0 ELSE CASE k % 4 = 1 -> 2 + (k % 30) [] k % 4 = 2 -> 2 + (k % 20) [] OTHER -> 2 + (k % 15))
+FullRec(id, k) == LET n == (IF k % 5 = 0 THEN 0 ELSE CASE k % 4 = 1 -> 2 + ((k \div 4) % 30) [] k % 4 = 2 -> 2 + ((k \div 4) % 20) [] OTHER -> 2 + ((k \div 4) % 15))
                       r == [FsrBase(k) EXCEPT !.id = IdStr(k, n), !.res = IF k % 3 = 0 THEN AllRes ELSE IF k % 3 = 1 THEN [NoRes EXCEPT !.tl = 1] ELSE NoRes]
                   IN [id |-> id, type |-> 1, body |-> FsrEnc(r), r |-> r]
 OtherRec(id, k) == [id |-> id, type |-> <<2, 17, 192>>[1 + (k % 3)], body |-> [i \in 1..(3 + (k % 40)) |-> (k + i * 3) % 256], r |-> <<>>]
